@@ -45,6 +45,8 @@ type State struct {
 	heap    map[string]string // heap key -> current SMT term
 	written map[string]bool   // heap keys / var ids written (tracked for loop frames)
 	nonFresh map[string]int   // base keys written -> smallest allocation stamp of the objects written (0 = pre-existing / unknown)
+	nfRefs   map[string]map[string]int // base key -> object terms written through noteWrite (with their allocation stamps)
+	nfWhole  map[string]bool           // keys / prefixes havocked without a known object (callee frames, pending havocs)
 	wvars   map[*types.Var]bool
 	defers  []deferred
 	dead    bool
@@ -73,7 +75,7 @@ type deferred struct {
 
 func (s *State) clone() *State {
 	n := &State{assumes: s.assumes, vars: make(map[*types.Var]Value, len(s.vars)), heap: make(map[string]string, len(s.heap)),
-		written: s.written, wvars: s.wvars, dead: s.dead, epochs: s.epochs, nonFresh: s.nonFresh, lazy: s.lazy, lazyFrom: s.lazyFrom}
+		written: s.written, wvars: s.wvars, dead: s.dead, epochs: s.epochs, nonFresh: s.nonFresh, nfRefs: s.nfRefs, nfWhole: s.nfWhole, lazy: s.lazy, lazyFrom: s.lazyFrom}
 	for k, v := range s.vars {
 		n.vars[k] = v
 	}
@@ -173,6 +175,9 @@ type Ctx struct {
 	atHit       map[string]bool
 	curLoop     int
 	loopIdxVar  map[int]*types.Var
+	loopWrites  map[int]map[string]bool // heap keys written by each loop (dry run), by loop ordinal
+	lastNfRefs  map[string][]string     // per base key: pre-existing objects the last discovered loop writes, if all are loop-invariant terms
+	lastNfVague map[string]bool         // keys / prefixes for which the objects written are not all known loop-invariant terms
 	loopHavoc   bool
 	lastNonFresh map[string]bool
 	allocSeq    map[string]int
@@ -192,6 +197,12 @@ func (c *Ctx) noteWrite(s *State, key, ref string) {
 		}
 		if old, ok := s.nonFresh[key]; !ok || stamp < old {
 			s.nonFresh[key] = stamp
+		}
+		if s.nfRefs != nil {
+			if s.nfRefs[key] == nil {
+				s.nfRefs[key] = map[string]int{}
+			}
+			s.nfRefs[key][ref] = stamp
 		}
 	}
 }
@@ -714,6 +725,9 @@ func (c *Ctx) heapHavoc(s *State, key, sort string) {
 	}
 	if s.nonFresh != nil && !c.loopHavoc {
 		s.nonFresh[key] = 0
+		if s.nfWhole != nil {
+			s.nfWhole[key] = true
+		}
 	}
 }
 
@@ -758,6 +772,9 @@ func (c *Ctx) pendingHavoc(s *State, prefix string) {
 	}
 	if s.nonFresh != nil {
 		s.nonFresh[prefix] = 0
+		if s.nfWhole != nil {
+			s.nfWhole[prefix] = true
+		}
 	}
 }
 
